@@ -153,6 +153,12 @@ def enum_helpers(seed):
                 ("dosym", "", ["target", "/usr/share/dir-missing-name/"], None),
                 ("dosym", "", ["-r", "/usr/share/x/a.txt", "/usr/lib/deep/rel-link"], {"usr/lib/deep/rel-link": ("sym", "../../share/x/a.txt")} if eapi == "8" else None),
                 ("dosym", "", ["-r", "share/x/a.txt", "/usr/lib/rel2"], None),
+                # directories that (in the rounds that run every request in order) exist already, asked for again with other modes: like `install -d -m...`,
+                # the requested mode is what the directory has afterwards
+                ("dodir", "--diroptions=-m0750", ["/var/lib/pkg"], {"var/lib/pkg": ("dir", 0o750)}),
+                ("keepdir", "--diroptions=-m0700", ["/var/empty"], {"var/empty": ("dir", 0o700), "var/empty/.keep_cat_pkg-2": ("file", 0o644, b"")}),
+                ("doins", "--dest=/usr/share/y --insoptions=-m0644 --diroptions=-m0711", ["-r", "tree"], {"usr/share/y/tree": ("dir", 0o711), "usr/share/y/tree/t1": F("tree/t1", 0o644), "usr/share/y/tree/sub": ("dir", 0o711),
+                                                                                                       "usr/share/y/tree/sub/t2": F("tree/sub/t2", 0o644)}),
             ]
             for round_ in range(14):
                 rnd = random.Random(seed * 100 + round_ + (7 if eapi == "8" else 0))
@@ -217,6 +223,31 @@ def enum_helpers(seed):
                 except Exception as e:
                     note({"helper": "dohard"}, f"dohard raised {type(e).__name__}: {e}")
                 shutil.rmtree(ED, ignore_errors=True)
+        # the helpers whose bash wrappers pass no --insoptions (dodoc, doman, domo, doinfo install with -m0644 by themselves), with every helper
+        # of the build constructed as the daemon does, under a build umask other than 022: the prescribed mode does not come from the umask
+        for um in (0o077, 0o027, 0o002):
+            ED = os.path.join(scratch, f"img-umask-{um:o}")
+            os.makedirs(ED)
+            os.umask(um)
+            try:
+                op = types.SimpleNamespace(pkg=pkg, ED=ED + "/", observer=_Obs(), env={}, userpriv=False, domain=None)
+                # constructed in the order pkgcore.ebuild.ebd builds its helper table (keepdir last)
+                daemon_order = ("doins", "dodoc", "dohtml", "dodir", "doexe", "dobin", "dosbin", "dolib.so", "dolib.a", "doman", "domo", "dosym", "dohard", "keepdir")
+                helpers = {n: HELPERS[n](op) for n in daemon_order}
+                for hname, opts, args, rel in (("dodoc", f"--dest=/usr/share/doc/{PF}/", ["README"], f"usr/share/doc/{PF}/README"), ("doman", "--dest=/usr/share/man", ["page.1"], "usr/share/man/man1/page.1"),
+                                               ("domo", "--dest=/usr/share/locale", ["de.mo"], "usr/share/locale/de/LC_MESSAGES/pkg.mo")):
+                    cases += 1
+                    ch = _Chan(["true", work, "install", opts, "".join(a + "\0" for a in args)])
+                    try:
+                        helpers[hname](ch)
+                        mode = os.stat(os.path.join(ED, rel)).st_mode & 0o7777
+                        if mode != 0o644:
+                            note({"helper": hname, "umask": oct(um), "args": args}, f"{hname} {args} under umask {um:03o} (all helpers constructed, as the daemon does): {rel} has mode {mode:04o}, the helper installs with -m0644")
+                    except Exception as e:
+                        note({"helper": hname, "umask": oct(um)}, f"{hname} {args} under umask {um:03o} raised {type(e).__name__}: {e}")
+            finally:
+                os.umask(0o022)
+            shutil.rmtree(ED, ignore_errors=True)
         # dosym -r: the relative link resolves to the requested absolute target
         rnd = random.Random(seed)
         comps = ["usr", "lib", "share", "x", "y.d", "a-b", "bin", "deep", "z"]
